@@ -284,6 +284,10 @@ def run_program(case, cancel_at=None):
         if cfault:
             if not src.close_calls:
                 raise Violation("C08/underlying-not-closed-at-exit", f"kind={kind}: aclose never called", case=vcase)
+            if src.close_calls > 1:
+                # "closed exactly once": also when that one aclose() fails - its failure is the caller's to handle
+                raise Violation("C08/underlying-closed-more-than-once", f"calls={src.close_calls} (the first one failed)",
+                                case=vcase)
         elif observable:
             if not src.released:
                 raise Violation("C08/underlying-not-closed-at-exit", f"kind={kind} outcome={outcome[0]}", case=vcase)
